@@ -176,3 +176,15 @@ Proof.
   - constructor; [intros [E|[]]; discriminate|]. constructor; [intros []|constructor].
   - repeat constructor; lia.
 Qed.
+
+(* ---------- tie to the source text ----------
+   modbus.RtuCrc, printed from modbus/crc.go by the translator (harness/cmd/anchors) as a MiniGo syntax tree and
+   run by the evaluator of MiniGo/Syntax.v, computes the checksum [rtu_crc] of the model that the frame theorems
+   above are about, for every buffer (Anchors/TieRtuCrc.v). *)
+From Coq Require Import ZArith List.
+From Verif Require Import MiniGo.Syntax Anchors.Generated Anchors.TieRtuCrc.
+
+Theorem C19_rtu_crc_from_source : forall buf, bytes_ok buf = true ->
+  run go_modbus_RtuCrc [map Z.of_N buf] [] = Some (Z.of_N (rtu_crc buf)).
+Proof. exact go_RtuCrc_is_model_bytes. Qed.
+Print Assumptions C19_rtu_crc_from_source.
